@@ -10,6 +10,8 @@ CLAIMED = {
  'C01': ('model_checking', 'bounded-by-width symbolic execution of clang-14 IR of every integer-arithmetic kernel (op x type x 23 x86 archs) to z3 bit-vector terms; per-lane equivalence with the two\'s-complement scalar spec decided by z3/cvc5 for all operand bit patterns; counterexamples replayed natively', '5 C01', 'IR symbolic execution + SMT (QF_BV) per-lane equivalence, native replay'),
  'C03': ('model_checking', 'symbolic execution of comparison/mask/select kernels; comparisons vs SMT-LIB FloatingPoint/bit-vector predicates for all operand bits; mask operators over all 2^n canonical masks at once; from_mask LUTs with symbolic index', '5 C03', 'IR symbolic execution + SMT (QF_BV/QF_FP) per-lane equivalence'),
  'C07': ('model_checking', 'symbolic execution of bitwise/shift/rotate kernels; equivalence with bvshl/bvlshr/bvashr/rotate for all lane values x all counts in [0,bits), scalar and per-lane counts', '5 C07', 'IR symbolic execution + SMT (QF_BV) per-lane equivalence, native replay'),
+ 'C09': ('model_checking', 'symbolic execution of every reduction kernel: integer sums/extrema vs modular sum and per-lane bound + attained obligations; FP sums and haddp in token abstraction (each lane exactly once); generic reduce with an external AC function', '5 C09', 'IR symbolic execution + SMT; token abstraction for FP sums'),
+ 'C13': ('model_checking', 'spec-free 2-safety query on every element-wise kernel body: lane k of two executions agreeing on lane k only is equal; broadcast gives equal lanes; obtained by substitution in the result term of the real code', '5 C13', 'self-composition (non-interference) over symbolically executed IR + SMT'),
 }
 NA = {
  'C10': 'no SMT theory contains exp/log/sin/erf/gamma: an ulp bound against the real-valued function cannot be expressed as a solver query over the code (DESIGN.md section 6); exhausting 2^32 inputs would be enumeration, a different technique',
